@@ -1,6 +1,7 @@
 import SJ.Drv.C18
 import SJ.Drv.C01
 import SJ.Drv.C10
+import SJ.Drv.C05
 /-!
 `sjdriver` — reads case lines `op args… => impl-observation` on stdin, runs the Lean model and the
 executable specification on each, prints
@@ -11,7 +12,12 @@ and finally `SUMMARY total=… modeldiff=… specfail=… bad=…`.
 open SJ SJ.Drv
 
 def allHandlers : List (String × Handler) :=
-  C18.handlers ++ C01.handlers ++ C10.handlers
+  List.flatten [
+    C18.handlers,
+    C01.handlers,
+    C10.handlers,
+    C05.handlers,
+  ]
 
 def findHandler (op : String) : Option Handler := (allHandlers.find? (·.1 == op)).map (·.2)
 
